@@ -10,6 +10,14 @@ HERE = os.path.dirname(os.path.dirname(os.path.abspath(__file__)))
 
 def consts(path):
     out = {}
+    try:
+        ns = {}
+        exec(compile(open(path).read(), path, "exec"), ns)     # check modules are plain data
+        out = {k: v for k, v in ns.items() if k.isupper()}
+        out["__doc__"] = ns.get("__doc__") or ""
+        return out
+    except Exception:
+        out = {}
     tree = ast.parse(open(path).read())
     out["__doc__"] = ast.get_docstring(tree) or ""
     for s in tree.body:
@@ -34,6 +42,8 @@ def main():
         if not c.get("REGISTER", True):
             continue
         claimed.add(pid)
+        if c.get("LEVEL", "proof") == "proof" and not c.get("FUNCTIONS") and not c.get("EXTRA"):
+            c["LEVEL"] = "exploration"
         checks.append({
             "property_id": pid,
             "quick_cmd": f"./check {pid} --tier quick",
